@@ -176,6 +176,9 @@ structure Cfg where
   flagsSticky : Bool
   /-- `SetContentVoid` replaces typed content by void (false: it left typed content alone) -/
   setVoidClearsTyped : Bool
+  /-- `buildBeacon` publishes `initialized` only after the slice is filled and sorted, under a
+      build lock (false: the flag is raised first, so a concurrent first reader can see it early) -/
+  initialisedAfterFill : Bool
   deriving DecidableEq, Repr
 
 def test (c : Cmp) (x bound : Int) : Bool :=
@@ -545,6 +548,19 @@ def shiftList (cfg : Cfg) (st : St) : List Rec :=
 
 def stepShiftExpired (cfg : Cfg) (st : St) : St :=
   ((shiftList cfg st).map (·.key)).foldl stepDel (stepBuild cfg st expireAll)
+
+/-- Two first readers of a pair that is not built yet.  The first sits in `buildBeacon` between
+    raising `initialized` on the ASC beacon and filling it; this is what the SECOND reader is
+    answered.  With the flag published last (and a build lock) it simply gets the built index. -/
+def answerSecond (cfg : Cfg) (st : St) (q : Query) : Option (List Rec) :=
+  if st.store.isEmpty then none
+  else if (st.pairs (phys cfg q.slot)).init || cfg.initialisedAfterFill then answer cfg st q
+  else if q.asc then
+    -- ASC already carries the flag, so the second reader does not build it: it reads the empty slice
+    some (getMany cfg [] (ts q.slot) q.asc q.from_ (if q.limit = 0 then st.store.length else q.limit) none none)
+  else
+    -- DESC is not flagged yet: the second reader builds it itself, completely
+    answer cfg st q
 
 def step (cfg : Cfg) (st : St) : Op → St
   | .set rq => stepSet cfg st rq
